@@ -38,11 +38,12 @@ def lib(where, fn, *a, **k):
         raise LibRaised(where, e) from e
 
 
-def history_independent(res, oracle, fn, args, other_args_list, what):
+def history_independent(res, oracle, fn, args, other_args_list, what, rtol=1e-12):
     """A pure function returns the same value for the same arguments whatever was evaluated in between.
 
     fn(*args) -> v1; fn(*other) for every other argument tuple (errors there are ignored); fn(*args) -> v2; v1 must
-    equal v2 exactly.  Catches memoisation keyed on too few arguments or on rounded / "close enough" keys."""
+    equal v2 to `rtol` (rounding level of the routine: a correct warm start / incremental evaluation may move the last
+    digits, a cache keyed on too few arguments or on rounded / "close enough" keys moves the value by far more)."""
     import numpy as _np
 
     v1 = fn(*args)
@@ -53,7 +54,7 @@ def history_independent(res, oracle, fn, args, other_args_list, what):
             pass
     v2 = fn(*args)
     a1, a2 = _np.asarray(v1, float), _np.asarray(v2, float)
-    if a1.shape != a2.shape or not _np.array_equal(a1, a2, equal_nan=True):
+    if a1.shape != a2.shape or not _np.allclose(a1, a2, rtol=rtol, atol=0.0, equal_nan=True):
         res.bad(oracle, f"{what}: {v1!r} on the first call, {v2!r} after evaluating {other_args_list!r} in between (arguments {args!r})")
         return False
     return True
